@@ -6,7 +6,7 @@ From SV Require Import Text G_codes G_flags G_sjson C14_Model.
 
 (* ---- pins: the constants of /repo the model was written against ------------------------------------------------- *)
 Lemma pin_classes : SJSON_CLASSES =
-  [N_Location; bs "Defect"%bs; bs "Strand"%bs; N_Feature; N_FeatureList; cls_name CAttr; cls_name CMeta; N_BioBasket; N_BioSeq].
+  [cls_name CAttr; N_BioBasket; N_BioSeq; bs "Defect"%bs; N_Feature; N_FeatureList; N_Location; cls_name CMeta; bs "Strand"%bs].
 Proof. reflexivity. Qed.
 (* the attributes `o.__dict__.items()` enumerates: exactly the public ones the encoder writes plus the private ones it re-adds *)
 Lemma pin_vars :
